@@ -38,7 +38,8 @@ const (
 	mss       = 1448
 	hdr       = 21
 	maxPay    = 1427
-	sampleCap = 40000 // samples a single Write may draw before the harness aborts it
+	sampleCap = 6000 // samples a single Write may draw before the harness aborts it
+	writeWall = 20 * time.Second // wall-clock budget of a single Write (IAT sleeps included)
 )
 
 // ---------------------------------------------------------------- rand reader with an abort limit
@@ -54,13 +55,14 @@ type limitReader struct {
 	armed bool
 	left  int
 	total int
+	until time.Time
 }
 
 func (l *limitReader) Read(p []byte) (int, error) {
 	l.mu.Lock()
 	if l.armed {
 		l.total += len(p)
-		if l.left -= len(p); l.left < 0 {
+		if l.left -= len(p); l.left < 0 || time.Now().After(l.until) {
 			t := l.total
 			l.mu.Unlock()
 			panic(abortSentinel{t})
@@ -72,7 +74,7 @@ func (l *limitReader) Read(p []byte) (int, error) {
 
 func (l *limitReader) arm(limit int) {
 	l.mu.Lock()
-	l.armed, l.left, l.total = true, limit, 0
+	l.armed, l.left, l.total, l.until = true, limit, 0, time.Now().Add(writeWall)
 	l.mu.Unlock()
 }
 
@@ -85,6 +87,9 @@ func (l *limitReader) disarm() {
 var (
 	tape   *vlib.RandTape
 	reader *limitReader
+	// Writes abandoned for not returning, outside the recorded finding classes; each costs up to
+	// writeWall, so the run stops generating connections after a few (it has failed anyway)
+	abortedUnknown int
 )
 
 // ---------------------------------------------------------------- small helpers
@@ -147,7 +152,9 @@ func padOracle(tail, target int, frames []int, total int, err error) (string, st
 	if need > 0 && need <= hdr {
 		want = mod(target+hdr, mss)
 	}
-	if mod(total, mss) != want {
+	// a needed padding of exactly one header: the property text ("smaller than a header") allows
+	// the target itself, the code's branch (padLen <= headerLength) gives target + 21 — both accepted
+	if mod(total, mss) != want && !(need == hdr && mod(total, mss) == mod(target, mss)) {
 		return "burst-does-not-end-on-target", fmt.Sprintf("buffered %d, target %d (needed padding %d): burst ends at %d = %d mod %d, expected %d", tail, target, need, total, mod(total, mss), mss, want)
 	}
 	return "", ""
@@ -442,7 +449,7 @@ func writeOracle(mode int, n int, ld *dist, fed []int, res writeResult) (string,
 		case "only-zero":
 			sig = "paranoid-table-is-only-zero"
 		case "single-length":
-			sig = "paranoid-single-length-table-never-terminates"
+			sig = "paranoid-single-value-table-pads-forever"
 		}
 		return sig, fmt.Sprintf("Write(%d bytes) drew more than %d samples without returning (wrote %d segments so far)", n, len(res.used)/16, len(res.sizes))
 	}
@@ -475,7 +482,7 @@ func writeOracle(mode int, n int, ld *dist, fed []int, res writeResult) (string,
 		if need > 0 && need <= hdr {
 			want = mod(t+hdr, mss)
 		}
-		if mod(total, mss) != want {
+		if mod(total, mss) != want && !(need == hdr && mod(total, mss) == mod(t, mss)) {
 			return "burst-does-not-end-on-sampled-target", fmt.Sprintf("Write(%d bytes), sampled target %d (needed padding %d): burst of %d bytes ends at %d mod %d, expected %d", n, t, need, total, mod(total, mss), mss, want)
 		}
 	case 2:
@@ -489,6 +496,9 @@ func writeOracle(mode int, n int, ld *dist, fed []int, res writeResult) (string,
 			}
 			for k < len(fed) && fed[k] != s {
 				k++
+			}
+			if k == len(fed) && len(res.used) > 16*len(fed) {
+				break // the steered samples ran out; later samples came from the PRNG and are not known here
 			}
 			if k == len(fed) {
 				return "paranoid-write-not-a-sampled-length", fmt.Sprintf("iat-mode 2: write sizes %s are not a subsequence of the samples fed %s", clip(joinInts(res.sizes), 120), clip(joinInts(fed), 120))
@@ -560,6 +570,9 @@ func runWrite(r *vlib.Run, d *vlib.Driver, p *pair, side string, n int, indices 
 		r.Violate(sig, "impl-oracle", fmt.Sprintf("seed %s iat-mode %d (%s) biased %v, Write(%d bytes), length samples fed %s: %s", lenSeed, mode, side, p.biased, n, clip(joinInts(fed), 60), txt), c)
 	}
 	if res.aborted {
+		if sig == "write-does-not-terminate" {
+			abortedUnknown++
+		}
 		return false
 	}
 	// --- C: the Lean model on the same seed and the same random bytes
@@ -1038,7 +1051,7 @@ func main() {
 
 	// ---- (b), (c) connections
 	srng := rng.Fork()
-	nconn := r.Scale(54, 540)
+	nconn := r.Scale(108, 810)
 	for i := 0; i < nconn; i++ {
 		var seed string
 		switch i % 3 {
@@ -1054,6 +1067,10 @@ func main() {
 		}
 		c := scenarioCase{Op: "conn", Seed: seed, SrvIat: (i / 3) % 3, CliIat: (i / 9) % 3, Biased: (i/27)%2 == 1, RngKey: srng.U64()}
 		scenario(r, ds, dd, c)
+		if abortedUnknown > 3 {
+			r.Notes["stopped_early"] = "more than 3 Writes did not return; remaining connection scenarios skipped"
+			break
+		}
 	}
 	r.Finish()
 }
@@ -1078,15 +1095,42 @@ func probeSingles(r *vlib.Run, ds, dd *vlib.Driver, rng *vlib.Rng) {
 		}(w)
 	}
 	wg.Wait()
-	probes := 0
+	// order: tables predicted to cycle first (input selection only — the verdict is observed)
+	type cand struct {
+		i, n  int
+		cycle bool
+	}
+	var cands []cand
 	for i, cl := range class {
 		r.Count("scanned-seed-table", cl)
-		if (cl == "single-length" || cl == "only-zero") && probes < maxProbes {
-			probes++
-			n := vlib.Pick(rng, []int{1, 2, 100, 1427, 3000})
-			scenario(r, ds, dd, scenarioCase{Op: "write1", Seed: seeds[i], SrvIat: 2, CliIat: 0, RngKey: rng.U64(),
-				Side: "server", N: n, Indices: make([]int, 50), Cap: 400})
+		if cl != "single-length" && cl != "only-zero" {
+			continue
 		}
+		c := cand{i: i, n: vlib.Pick(rng, []int{1, 2, 100, 1427, 3000})}
+		if nz := nonZero(tableOfSeed(seeds[i])); len(nz) == 1 {
+			v := nz[0]
+			if rem := (mss + hdr) % v; rem != 0 && v-rem <= hdr {
+				// a payload whose single frame leaves a remainder of v-1: the first padding needs two frames
+				c.cycle, c.n = true, mod(v-1-hdr, v)
+				if c.n == 0 {
+					c.n = v
+				}
+			}
+		}
+		cands = append(cands, c)
+	}
+	sort.SliceStable(cands, func(a, b int) bool { return cands[a].cycle && !cands[b].cycle })
+	for k, c := range cands {
+		if k >= maxProbes {
+			break
+		}
+		if c.cycle {
+			r.Count("termination-probe", "single value predicted to cycle")
+		} else {
+			r.Count("termination-probe", "single value / only zero, other")
+		}
+		scenario(r, ds, dd, scenarioCase{Op: "write1", Seed: seeds[c.i], SrvIat: 2, CliIat: 0, RngKey: rng.U64(),
+			Side: "server", N: c.n, Indices: make([]int, 50), Cap: 400})
 	}
 }
 
